@@ -75,6 +75,28 @@ Definition new_r : str := [37;73;58;37;77;58;37;83;32;37;112]%N.   (* %I:%M:%S %
 Definition new_R : str := [37;72;58;37;77]%N.                      (* %H:%M *)
 Definition new_T : str := [37;72;58;37;77;58;37;83]%N.             (* %H:%M:%S *)
 
+(* the loop init() runs over the format (repaired code):
+     for (pos = find('%'); pos != npos;) {
+       end = find_first_not_of("-_0^#123456789EO", pos + 1);  if (end == npos) break;
+       if (f[end] == 'c' || (end != pos + 1 && "HMSIklsrRTX" contains f[end])) throw;
+       pos = find('%', end + 1); }
+   [st] = None while looking for the next '%'; Some m after one, m = "something was skipped". *)
+Definition skip_chars : list N := [45;95;48;94;35;49;50;51;52;53;54;55;56;57;69;79]%N.   (* -_0^#123456789EO *)
+Definition time_chars : list N := [72;77;83;73;107;108;115;114;82;84;88]%N.             (* HMSIklsrRTX *)
+Definition memN (x : N) (l : list N) : bool := existsb (N.eqb x) l.
+Fixpoint unpatch (st : option bool) (s : str) : bool :=
+  match s with
+  | [] => false
+  | x :: s' =>
+    match st with
+    | None => unpatch (if N.eqb x 37 then Some false else None) s'
+    | Some m => if memN x skip_chars then unpatch (Some true) s'
+                else if N.eqb x 99 || (m && memN x time_chars) then true
+                else unpatch None s'
+    end
+  end.
+Definition unpatchable (f : str) : bool := unpatch None f.
+
 Inductive ftype := fH | fM | fS | fI | fk | fl | fs.
 
 Definition modifiers : list (str * ftype) :=
@@ -143,11 +165,15 @@ Variable local : bool.     (* Timezone::LocalTime / Timezone::GmtTime *)
 (* _safe_strftime returns "" for the empty format without calling strftime *)
 Definition safe_strf (f : str) (t : Z) : str := match f with [] => [] | _ => strf f t end.
 
-(* init(); None = QUILL_THROW (%X) *)
-Definition sft_init (f : str) : option sft :=
+(* init(); None = QUILL_THROW (%X; under [strict] also an unpatchable conversion, see [unpatch]).
+   [strict] selects the code variant: true = init() scans the format for conversions that embed the
+   time of day but are not patched in the cached string and throws (the repair of D8 / N3);
+   false = the pinned earlier behaviour, where only the substring "%X" is looked for. *)
+Definition sft_init (strict : bool) (f : str) : option sft :=
   match find_sub m_X f with
   | Some _ => None
-  | None => let f' := rewrite_fmt f in
+  | None => if strict && unpatchable f then None else
+            let f' := rewrite_fmt f in
             Some {| parts := parts_of (S (length f')) f'; tfmt := f'; pre := []; idxs := [];
                     next := 0; cts := 0; csec := 0 |}
   end.
@@ -213,21 +239,26 @@ Definition tf_search (f : str) : option (option (fkind * nat)) :=
     end
   end.
 
-Definition tf_init (f : str) : tfm + tf_err :=
+(* repaired constructor: _time_format.find(specifier_name[found], specifier_begin + 4) != npos throws *)
+Definition dup_spec (f : str) (k : fkind) (i : nat) : bool :=
+  match find_sub (spec_name k) (skipn (i + 4) f) with Some _ => true | None => false end.
+
+Definition tf_init (strict : bool) (f : str) : tfm + tf_err :=
   match tf_search f with
   | None => inr ErrExclusive
   | Some None =>
-    match sft_init f with
+    match sft_init strict f with
     | Some a => inl {| tspec := None; tp1 := a; tp2 := None |}
     | None => inr ErrX
     end
   | Some (Some (k, i)) =>
-    match sft_init (firstn i f) with
+    if strict && dup_spec f k i then inr ErrExclusive else
+    match sft_init strict (firstn i f) with
     | None => inr ErrX
     | Some a =>
       match skipn (i + 4) f with
       | [] => inl {| tspec := Some k; tp1 := a; tp2 := None |}
-      | f2 => match sft_init f2 with
+      | f2 => match sft_init strict f2 with
               | Some b => inl {| tspec := Some k; tp1 := a; tp2 := Some b |}
               | None => inr ErrX
               end
@@ -272,8 +303,8 @@ Fixpoint sft_run (st : sft) (ts : list Z) : list str :=
 
 (* every format string the model may hand to the oracle for this pattern (used by the runner to
    ask the harness for exactly these) *)
-Definition tf_formats (f : str) : list str :=
-  match tf_init f with
+Definition tf_formats (strict : bool) (f : str) : list str :=
+  match tf_init strict f with
   | inr _ => []
   | inl x => parts (tp1 x) ++ [tfmt (tp1 x)] ++
              match tp2 x with Some b => parts b ++ [tfmt b] | None => [] end
@@ -282,10 +313,12 @@ Definition tf_formats (f : str) : list str :=
 End Model.
 
 (* ------------------------------------------------------------------ encoded entry points *)
-(* case:  time <local> <zlen> zone-bytes.. <plen> pattern-bytes.. <n> ns_1 .. ns_n
+(* case:  time <strict> <local> <zlen> zone-bytes.. <plen> pattern-bytes.. <n> ns_1 .. ns_n
                <k> { <flen> fmt-bytes.. <t> <olen> out-bytes.. }*k   <j> { <t> <sod> }*j
-   (the zone name is for the harness only).  Output: "0 code" when the constructor throws
-   (1 = specifiers mutually exclusive, 2 = %X), else "1" then per instant "<len> bytes..". *)
+   (<strict> selects the code variant, see [sft_init]; the harness ignores it; the zone name is for
+   the harness only).  Output: "0 code" when the constructor throws (1 = specifiers mutually
+   exclusive / used more than once, 2 = %X or another unsupported conversion), else "1" then per
+   instant "<len> bytes..". *)
 Definition take_str (l : list N) : str * list N :=
   match l with
   | [] => ([], [])
@@ -327,7 +360,8 @@ Definition enc_strs (l : list str) : list N :=
 
 Definition time_run_enc (l : list N) : list N :=
   match l with
-  | lc :: r0 =>
+  | [_] => [9%N]
+  | sc :: lc :: r0 =>
     let (_, r1) := take_str r0 in
     let (pat, r2) := take_str r1 in
     match r2 with
@@ -341,7 +375,7 @@ Definition time_run_enc (l : list N) : list N :=
         let strf := fun f t => tab_lookup tb f (Z.to_N t) in
         let sodf := fun t => sod_lookup sods (Z.to_N t) in
         let lcb := negb (N.eqb lc 0) in
-        match tf_init pat with
+        match tf_init (negb (N.eqb sc 0)) pat with
         | inr ErrExclusive => [0; 1]%N
         | inr ErrX => [0; 2]%N
         | inl x => 1%N :: enc_strs (tf_run strf sodf lcb x nss)
@@ -353,8 +387,12 @@ Definition time_run_enc (l : list N) : list N :=
   | [] => [9%N]
   end.
 
-(* timeq <plen> pattern-bytes.. : the formats the model will query (count, then len-prefixed) *)
+(* timeq <strict> <plen> pattern-bytes.. : the formats the model will query (count, then len-prefixed) *)
 Definition time_formats_enc (l : list N) : list N :=
-  let (pat, _) := take_str l in
-  let fs := tf_formats pat in
-  N.of_nat (length fs) :: enc_strs fs.
+  match l with
+  | [] => [0%N]
+  | sc :: l' =>
+    let (pat, _) := take_str l' in
+    let fs := tf_formats (negb (N.eqb sc 0)) pat in
+    N.of_nat (length fs) :: enc_strs fs
+  end.
